@@ -60,6 +60,9 @@ def run(ctx) -> None:
   ctx.rule('R5', 'NumpyExperimenter: raw-value converter; every path completes or marks infeasible', 2)
   ctx.rule('R6', 'shifting wrapper shrinks the declared bounds on the side the shift leaves', 1)
   ctx.rule('R8', 'every given trial is completed: completing loops range over the whole argument, not a filtered sub-list', 8)
+  ctx.rule('R10', 'evaluate() keeps nothing on the experimenter between calls (no memo of measurements / results on self)', 15)
+  ctx.rule('R11', 'NumpyExperimenter calls the wrapped function with one feature row at a time', 1)
+  ctx.rule('R12', 'mirrored bounds / ranges are swapped through temporaries or a tuple assignment (no `a = f(b); b = f(a)`)', 1)
   ctx.rule('R9', 'feature rows are built by parameter name, never from the iteration order of a trial\'s parameter dict', 1)
   ctx.import_rules('C14', {'R1'}, 'R7', 'seeded noise/permutation wrappers use no ambient entropy (process hash seed, clock, global RNG)')
   subs = [c for c in ctx.index.subclasses(EXP) if c.file.startswith(DIR)]
@@ -73,6 +76,9 @@ def run(ctx) -> None:
   r6_shift(ctx)
   r8_all_given_trials(ctx, subs)
   r9_by_name(ctx, subs)
+  r10_stateless_evaluate(ctx, subs)
+  r11_row_at_a_time(ctx)
+  r12_no_broken_swap(ctx, subs)
 
 
 # ----------------------------------------------------------------------- R1
@@ -301,6 +307,87 @@ def r5_numpy(ctx) -> None:
 
 
 # ----------------------------------------------------------------------- R8
+def r10_stateless_evaluate(ctx, subs: List[ClassInfo]) -> None:
+  n = 0
+  for ci in subs:
+    ev = ci.methods.get('evaluate')
+    if ev is None:
+      continue
+    n += 1
+    kept = None
+    for x in ast.walk(ev.node):
+      tgs = x.targets if isinstance(x, ast.Assign) else [x.target] if isinstance(x, (ast.AugAssign, ast.AnnAssign)) else []
+      for t in tgs:
+        if isinstance(t, ast.Subscript) and (dotted(t.value) or '').startswith('self._') and 'rng' not in (dotted(t.value) or ''):
+          kept = kept or x
+      if isinstance(x, ast.Call) and isinstance(x.func, ast.Attribute) and x.func.attr in ('setdefault', 'append', 'add', 'update', 'extend') \
+          and (dotted(x.func.value) or '').startswith('self._') and dotted(x.func.value).count('.') == 1:
+        kept = kept or x
+    ctx.check(kept is None, 'R10', f'{ci.name}.evaluate keeps no results', ev.node, 'no container of the experimenter is written while evaluating',
+              f'`{unparse(kept, 70) if kept is not None else ""}` stores a result on the experimenter: a later evaluation of the same point is answered '
+              'from it, and because wrappers rewrite the stored measurement in place (sign flip, noise, normalisation) the second answer differs '
+              'from f(x)', construct=f'{ci.name}:evaluate-memo', func=ev.qualname)
+  if n < 15:
+    raise AnalysisError(f'only {n} evaluate() methods examined')
+
+
+def r11_row_at_a_time(ctx) -> None:
+  ci = ctx.index.need_class('vizier._src.benchmarks.experimenters.numpy_experimenter.NumpyExperimenter')
+  bad = None
+  n = 0
+  for m in ci.methods.values():
+    g = None
+    for c in flow.calls_in(m.node):
+      if dotted(c.func) != 'self.impl' or not c.args:
+        continue
+      n += 1
+      a = c.args[0]
+      row = False
+      if isinstance(a, ast.Subscript) and not isinstance(a.slice, ast.Slice):
+        row = True
+      if isinstance(a, ast.Name):
+        # a loop / comprehension variable ranging over the feature matrix
+        for anc in ancestors(c):
+          if isinstance(anc, (ast.For,)) and any(isinstance(t, ast.Name) and t.id == a.id for t in ast.walk(anc.target)):
+            row = True
+          if isinstance(anc, (ast.ListComp, ast.GeneratorExp)) and any(
+              isinstance(t, ast.Name) and t.id == a.id for gen in anc.generators for t in ast.walk(gen.target)):
+            row = True
+      if not row:
+        bad = bad or c
+  if n < 1:
+    raise AnalysisError('NumpyExperimenter: no call of self.impl found')
+  ctx.check(bad is None, 'R11', 'NumpyExperimenter: impl(features[i])', ci.node, f'{n} call(s), each with a single row',
+            f'`{unparse(bad, 50) if bad is not None else ""}` hands the whole feature matrix to a function documented for one point: a function that happens '
+            'to accept a matrix (indexing x[i] picks rows instead of coordinates) returns values that mix the coordinates of different trials',
+            construct='impl-on-batch', func=ci.qualname)
+
+
+def r12_no_broken_swap(ctx, subs: List[ClassInfo]) -> None:
+  n = 0
+  for ci in subs:
+    for m in ci.methods.values():
+      for blk in [x for x in ast.walk(m.node) if hasattr(x, 'body') and isinstance(getattr(x, 'body'), list)]:
+        for lst in (blk.body, getattr(blk, 'orelse', [])):
+          if not isinstance(lst, list):
+            continue
+          for s1, s2 in zip(lst, lst[1:]):
+            if not (isinstance(s1, ast.Assign) and isinstance(s2, ast.Assign) and len(s1.targets) == 1 and len(s2.targets) == 1):
+              continue
+            a, b = unparse(s1.targets[0], 0), unparse(s2.targets[0], 0)
+            if a == b or isinstance(s1.targets[0], ast.Tuple):
+              continue
+            reads1 = {unparse(x, 0) for x in ast.walk(s1.value) if isinstance(x, (ast.Attribute, ast.Name, ast.Subscript))}
+            reads2 = {unparse(x, 0) for x in ast.walk(s2.value) if isinstance(x, (ast.Attribute, ast.Name, ast.Subscript))}
+            if b in reads1 and a in reads2:
+              n += 1
+              ctx.bad('R12', f'{ci.name}.{m.name}: `{a}` / `{b}`', s2,
+                      f'`{unparse(s1, 50)}` followed by `{unparse(s2, 50)}`: the second statement reads the value the first one has just overwritten, so the pair is '
+                      'not the intended exchange (a mirrored range [lo, hi] becomes [-hi, hi]); applying the wrapper twice no longer gives back the original',
+                      construct=f'{ci.name}.{m.name}:broken-swap', func=m.qualname)
+  ctx.ok('R12', 'experimenters: no sequential exchange through an overwritten value', DIR, f'{n} suspicious pair(s)') if n == 0 else None
+
+
 def r8_all_given_trials(ctx, subs: List[ClassInfo]) -> None:
   """evaluate() completes every trial it is given: a loop that completes its loop variable ranges over the whole
   `suggestions` argument (possibly through enumerate / zip / a deep copy), never over a filtered sub-list, and no early
